@@ -568,8 +568,19 @@ static void run_part() {
 }
 #endif
 
+// the comparison itself is checked before it is trusted: a one-channel, one-pixel difference must be seen
+static void self_test() {
+    gil::rgba16_image_t a(3, 2), b(3, 2);
+    cio::fill_view(gil::view(a), 7, 0); gil::copy_pixels(gil::const_view(a), gil::view(b));
+    if (cio::compare_views(gil::const_view(a), gil::const_view(b)).any()) vh::fatal_monitor("harness", "self-test: equal images reported different");
+    gil::view(b)(2, 1)[3] ^= 1;
+    cio::diff_t d = cio::compare_views(gil::const_view(a), gil::const_view(b));
+    if (d.n != 1 || d.fx != 2 || d.fy != 1 || d.nc != 4) vh::fatal_monitor("harness", "self-test: one-channel difference not located");
+    if (cio::hash_view(gil::const_view(a)) == cio::hash_view(gil::const_view(b))) vh::fatal_monitor("harness", "self-test: hash blind");
+}
 int main(int argc, char** argv) {
     vh::init(argc, argv);
+    self_test();
     run_part();
     return vh::finish();
 }
